@@ -102,6 +102,8 @@ def run(ctx):
     dt_hutch = {}
     for tier, cnt in (("Z", nZ), ("F", nF), ("C", nC), ("B", nB)):
         cases = [H.gen_case(ctx, gen, tier) for _ in range(cnt)]
+        if tier == "Z":      # long non-converging runs: caps around 64 / 100 / 128 / 200 / 256
+            cases += [H.gen_long_case(ctx) for _ in range(ctx.budget(16, 60))]
         obs = [H.run_impl(c) for c in cases]
         ok_idx = [i for i, o in enumerate(obs) if o.get("ok")]
         for c in cases:
